@@ -118,7 +118,10 @@ def build_case(p, comp, subs_terms):
         amb = ["bundle", "pkt", "hi"]
         if "needs_hi" in r:
             amb = ["bundle"] + (["hi"] if r["needs_hi"][0] else []) + (["pkt"] if r["needs_pkt"][0] else [])
-        obs.append({"fmt": f, "term": term, "events": a["events"], "ambient": amb})
+        o = {"fmt": f, "term": term, "events": a["events"], "ambient": amb}
+        if "meta" in r:
+            o["meta"] = r["meta"][0]
+        obs.append(o)
         events[f] = a["events"]
     regs, imms = cast.resources(p["body"])
     case = {
@@ -128,6 +131,7 @@ def build_case(p, comp, subs_terms):
         "imms": imms,
         "obs": obs,
         "cmpvars": p.get("cmpvars", cast.declared_vars(p["body"])),
+        "attr_body": p["body"], "noped": False,
     }
     return case, ("accepted", events)
 
